@@ -258,7 +258,12 @@ fn check_source_variants(ctx: &Ctx, case: &progs::ProgCase, counts: &[AtomicU64;
     let asm = case.assembler();
     let base = match hash_of(&asm, &case.src) {
         Ok(h) => h,
-        Err(e) => panic!("corpus program {} must assemble: {e}", case.name),
+        Err(e) => {
+            // these programs assemble on the unchanged tree: a failure here is the subject's
+            ctx.fail(json!({"kind": "corpus_program_does_not_assemble", "error": e.chars().take(60).collect::<String>()}), format!("{}: {e}", case.name),
+                json!({"kind": "variant", "variant": "original", "name": case.name, "original": case.src, "src": case.src, "kernel": case.kernel}));
+            return;
+        }
     };
     let toks: Vec<&str> = case.src.split_whitespace().collect();
     let cj = |variant: &str, src: &str| json!({"kind": "variant", "variant": variant, "name": case.name, "original": case.src, "src": src, "kernel": case.kernel});
@@ -327,10 +332,20 @@ fn check_source_variants(ctx: &Ctx, case: &progs::ProgCase, counts: &[AtomicU64;
 // ---- (d) execution consistency -------------------------------------------------------------------
 
 fn check_exec_hash(ctx: &Ctx, case: &progs::ProgCase) {
-    let program = case.assembler().compile(&case.src).expect("corpus program");
+    let cj0 = json!({"kind": "exec", "name": case.name, "src": case.src, "kernel": case.kernel, "stack": case.stack, "advice": case.advice, "merkle": !case.merkle_leaves.is_empty()});
+    let program = match mcx::guard::catch(|| case.assembler().compile(&case.src)) {
+        Ok(Ok(p)) => p,
+        other => {
+            ctx.fail(json!({"kind": "corpus_program_does_not_assemble"}), format!("{}: {:?}", case.name, other.map(|r| r.map(|_| ()).map_err(|e| e.to_string()))), cj0);
+            return;
+        }
+    };
     let t = match exec_trace(&program, &case.stack, case.advice_inputs(), processor::ExecutionOptions::default()) {
         Ok(Ok(t)) => t,
-        _ => panic!("corpus program {} must execute", case.name),
+        other => {
+            ctx.fail(json!({"kind": "corpus_program_does_not_execute"}), format!("{}: {:?}", case.name, other.map(|r| r.map(|_| ()).map_err(|e| format!("{e:?}")))), cj0);
+            return;
+        }
     };
     let cj = json!({"kind": "exec", "name": case.name, "src": case.src, "kernel": case.kernel, "stack": case.stack, "advice": case.advice, "merkle": !case.merkle_leaves.is_empty()});
     if word_of(*t.program_hash()) != word_of(program.hash()) {
